@@ -60,6 +60,9 @@ def fn(id, r, beh='ok'): return {'k': 'fn', 'id': id, 'r': r, 'beh': beh}
 def tmpl(id, prog, gl=None): return {'k': 'tmpl', 'id': id, 'prog': prog, 'gl': gl or {}}
 def obj(id, **a): return {'k': 'obj', 'id': id, 'a': a}
 def mp(id, **a): return {'k': 'map', 'id': id, 'a': a}
+def cmap(id, **a):
+    """a mapping that computes its values on access: every successful read is logged"""
+    return {'k': 'cmap', 'id': id, 'a': a}
 def lst(id, items, ck='list'): return {'k': 'list', 'id': id, 'items': items, 'ck': ck}
 def pair(key, v): return {'k': 'pair', 'id': 'pair', 'key': key, 'v': v}
 
@@ -127,7 +130,7 @@ def compile_value(v):
     elif k == 'tmpl':
         v['prog'] = compile_prog(v['prog'])
         v['gl'] = {a: compile_value(x) for a, x in v['gl'].items()}
-    elif k in ('obj', 'map'):
+    elif k in ('obj', 'map', 'cmap'):
         v['a'] = {a: compile_value(x) for a, x in v['a'].items()}
     elif k == 'list':
         v['items'] = [compile_value(x) for x in v['items']]
@@ -342,6 +345,8 @@ def conc(v, sty='dtml'):
         return t
     if k == 'obj':
         return Obj(v['id'], {a: conc(x, sty) for a, x in v['a'].items()})
+    if k == 'cmap':
+        return CMap(v['id'], {a: conc(x, sty) for a, x in v['a'].items()})
     if k == 'map':
         m = {a: conc(x, sty) for a, x in v['a'].items()}
         REG[id(m)] = (m, v['id'])
@@ -362,6 +367,21 @@ def conc(v, sty='dtml'):
     if k == 'pair':
         return (conc(v['key'], sty), conc(v['v'], sty))
     raise ValueError(k)
+
+
+class CMap:
+    """a mapping whose values are computed on access (each successful read is an observable event)"""
+
+    def __init__(self, vid, data):
+        self.vid, self._data = vid, data
+
+    def __getitem__(self, key):
+        v = self._data[key]            # KeyError for a name it does not define
+        RUN.calls.append('g:' + key)
+        return v
+
+    def __len__(self):
+        return len(self._data)
 
 
 REG = {}       # id(container) -> (container, value id): dtml-return must hand back the very object
@@ -495,7 +515,7 @@ def expected(model):
     else:
         m = r['msg']
         res = ['exc', r['cls'], _flat(m)]
-    evs = [[e[0], 'map' if e[1] in ('cache', 'none') else e[1], e[2]] for e in model['evs']]
+    evs = [[e[0], 'map' if e[1] in ('cache', 'none', 'cmap') else e[1], e[2]] for e in model['evs']]
     return {'result': res, 'calls': model['calls'], 'evs': evs, 'ninv': model['ninv'],
             'depth': model['depth'], 'level': model['level']}
 
